@@ -59,6 +59,10 @@ func (l *LineFormatterPlanner) Process(ctx *shared.PlannerContext,
 	i := 0
 	return l.WrapProcess(ctx, in, GenericPlannerOps{
 		OnEntry: func(entry *shared.LogEntry) error {
+			if entry.Err != nil {
+				_entries = append(_entries, *entry)
+				return nil
+			}
 			var buf bytes.Buffer
 			_labels := make(map[string]string)
 			for k, v := range entry.Labels {
